@@ -225,14 +225,15 @@ impl FileDiagnostic {
             let token = cancel_token.clone();
             let tx = tx.clone();
             tokio::spawn(async move {
-                let analysis = analysis.read().await;
-                let diagnostics = analysis.diagnose_file(file_id, token);
-                if let Some(diagnostics) = diagnostics {
-                    let uri = analysis.get_uri(file_id).unwrap();
-                    let _ = tx.send(Some((diagnostics, uri))).await;
-                } else {
-                    let _ = tx.send(None).await;
-                }
+                let result = {
+                    let analysis = analysis.read().await;
+                    analysis.diagnose_file(file_id, token).map(|diagnostics| {
+                        let uri = analysis.get_uri(file_id).unwrap();
+                        (diagnostics, uri)
+                    })
+                };
+                // the read lock is released before waiting for channel capacity
+                let _ = tx.send(result).await;
             });
         }
 
@@ -316,6 +317,8 @@ async fn push_workspace_diagnostic(
                 };
                 client.publish_diagnostics(diagnostic_param);
             }
+            // release the read lock before waiting for channel capacity
+            drop(analysis);
             let _ = tx.send(file_id).await;
         });
     }
